@@ -67,7 +67,7 @@ theorem SIW.mono {G : Nat → Nat} {H : Nat} {s : State σ} {t t' : Nat} (h : SI
 
 /-- the tail of the far branch of `seek` (all slots cleared) -/
 theorem far_SI (hC : Lawful C VC WC) (hscore : ∀ {c l}, VC c l → VC (C.score c).2 l)
-    (hG : Inter.Ghost C g) (hg : ∀ c, (C.score c).1 = g c (C.doc c)) {G : Nat → Nat}
+    (hG : Inter.Ghost C g) (hg : ∀ {c l}, VC c l → l ≠ [] → (C.score c).1 = g c (C.doc c)) {G : Nat → Nat}
     {H : Nat} (hH : 64 ∣ H) (hH0 : 0 < H) (s : State σ) (sc : Array Nat) {ds1 : List σ}
     {lsT : List (List Nat)} {UT : List Nat} (h1 : All2 VC ds1 lsT) (hU : SimpleUnion.IsUnion UT lsT)
     (hsum : s.sum = true) (hsz : sc.size = H) (hz : ∀ δ, sc.getD δ 0 = 0)
@@ -103,7 +103,7 @@ theorem far_SI (hC : Lawful C VC WC) (hscore : ∀ {c l}, VC c l → VC (C.score
 /-- `seek(t')` from a danger zone of a target `≤ t'` (or from any state whose buffered part lies below
 `t'`): everything is cleared and rebuilt from the re-validated children -/
 theorem seek_far_SI (hC : Lawful C VC WC) (hscore : ∀ {c l}, VC c l → VC (C.score c).2 l)
-    (hG : Inter.Ghost C g) (hg : ∀ c, (C.score c).1 = g c (C.doc c)) {G : Nat → Nat}
+    (hG : Inter.Ghost C g) (hg : ∀ {c l}, VC c l → l ≠ [] → (C.score c).1 = g c (C.doc c)) {G : Nat → Nat}
     {H : Nat} (hH : 64 ∣ H) (hH0 : 0 < H) (fx : Fix) {s : State σ} {t t' : Nat}
     (htt : t ≤ t') (ht : t' ≤ TERMINATED) (hdoc : s.doc < t') (hfar : s.ws + H ≤ t')
     (hS : SIW g G VC WC H s t) : SI g G VC H (seek fx C H t' s) := by
@@ -141,7 +141,7 @@ theorem WS.toW {G : Nat → Nat} {H : Nat} {s : State σ} {t : Nat} {l : List Na
 
 section
 variable (hC : Lawful C VC WC) (hscore : ∀ {c l}, VC c l → VC (C.score c).2 l)
-  (hG : Inter.Ghost C g) (hg : ∀ c, (C.score c).1 = g c (C.doc c)) {G : Nat → Nat}
+  (hG : Inter.Ghost C g) (hg : ∀ {c l}, VC c l → l ≠ [] → (C.score c).1 = g c (C.doc c)) {G : Nat → Nat}
   {H : Nat} (hH : 64 ∣ H) (hH0 : 0 < H)
 include hC hscore hG hg hH hH0
 
@@ -402,7 +402,7 @@ seek_danger sequences / fill_bitset_block / (default) fill_buffer: the observati
 specification cursor's, and whenever the cursor is not in a danger zone the union sits on the
 specification's document and scores the total of the children containing it -/
 theorem score_after_program (hC : Lawful C VC WC) (hscore : ∀ {c l}, VC c l → VC (C.score c).2 l)
-    (hG : Inter.Ghost C g) (hg : ∀ c, (C.score c).1 = g c (C.doc c))
+    (hG : Inter.Ghost C g) (hg : ∀ {c l}, VC c l → l ≠ [] → (C.score c).1 = g c (C.doc c))
     {H : Nat} (hH : 64 ∣ H) (hH0 : 0 < H) (fx : Fix) {cs : List σ} {ls : List (List Nat)} {U : List Nat}
     (h : All2 VC cs ls) (hU : SimpleUnion.IsUnion U ls) (prog : List Op)
     (hl : legalProg ⟨U, none⟩ prog = true) (hnc : ∀ op ∈ prog, op ≠ Op.count) :
